@@ -10,12 +10,14 @@ Definition header := (bytes * bytes)%type.
 (* an ASGI receive message as far as the loop looks at it: message.get("body", b""), message.get("more_body") *)
 Definition rmsg := (bytes * bool)%type.
 
-Inductive accum := TooLarge | Complete (body : bytes) | Starved (body : bytes).
-(* Starved: the message list ran out before more_body=False (the application would block in receive()) *)
-Fixpoint accumulate (max : Z) (acc : bytes) (msgs : list rmsg) : accum :=
+Inductive accum := TooLarge | Complete (body : bytes) | Starved (body : bytes) | Gone.
+(* Starved: the message list ran out before more_body=False (the application would block in receive());
+   Gone: http.disconnect arrived before the body was complete ([None] in the list): nothing is served *)
+Fixpoint accumulate (max : Z) (acc : bytes) (msgs : list (option rmsg)) : accum :=
   match msgs with
   | [] => Starved acc
-  | (b, more) :: r =>
+  | None :: _ => Gone
+  | Some (b, more) :: r =>
       let acc' := acc ++ b in
       if (Zlen acc' >? max)%Z then TooLarge
       else if more then accumulate max acc' r else Complete acc'
@@ -124,10 +126,10 @@ Definition run_app (a : wsgi_app) : run_result :=
   end.
 
 (* WSGIWrapper.__call__ for an http scope: what the ASGI side sees *)
-Definition handle_http (max : Z) (msgs : list rmsg) (sc : wscope) (a : wsgi_app) : run_result :=
+Definition handle_http (max : Z) (msgs : list (option rmsg)) (sc : wscope) (a : wsgi_app) : run_result :=
   match accumulate max [] msgs with
   | TooLarge => {| rr_sends := [SStart 400 []; SBody [] false]; rr_closes := 0; rr_raised := false; rr_called := 0 |}
-  | Starved _ => {| rr_sends := []; rr_closes := 0; rr_raised := false; rr_called := 0 |}
+  | Starved _ | Gone => {| rr_sends := []; rr_closes := 0; rr_raised := false; rr_called := 0 |}
   | Complete body =>
       match build_environ sc with
       | None => {| rr_sends := [SStart 404 []; SBody [] false]; rr_closes := 0; rr_raised := false; rr_called := 0 |}
